@@ -13,15 +13,33 @@ META["stubs"] = LP.META_COMMON["stubs"] + ["stream reader/writer per connection 
 META["outside"] = ["arbitrary byte sequences (json decoding is C code: a catalogue of message shapes is used)", "the TCP accept loop, partial lines", "the 'shutdown' request (a legitimate command)"] + LP.META_COMMON["outside"]
 
 
+class Spin(BaseException):
+    """The connection handler keeps calling readline() on a reset connection without ever yielding: the
+    event loop of the whole pool is frozen."""
+
+
 class Reader:
     def __init__(self, loop):
         self.loop = loop
         self.lines = []
         self.waiter = None
         self.eof = False
+        self.was_reset = False
+        self.raised = 0
+
+    def reset(self):
+        """The peer reset the connection: asyncio stores the error and every later read re-raises it at once."""
+        self.was_reset = True
+        if self.waiter is not None and not self.waiter.done():
+            self.waiter.set_result(None)
 
     async def readline(self):
         while not self.lines:
+            if self.was_reset:
+                self.raised += 1
+                if self.raised > 25:
+                    raise Spin()
+                raise ConnectionResetError(104, "Connection reset by peer")
             if self.eof:
                 return b""
             self.waiter = self.loop.create_future()
@@ -94,7 +112,7 @@ def _q14(m0, m1, m2, drop, when, legit):
     connection, or a broken pipe on its writer); B's child exits 0 before A's `when`-th line; then B
     asks for all states, enqueues another task and asks again."""
     n = len(MSGS) + 1
-    if not (q.in_range(m0, n) and q.in_range(m1, n) and q.in_range(m2, n) and q.in_range(when, 4) and q.in_range(drop, 3)):
+    if not (q.in_range(m0, n) and q.in_range(m1, n) and q.in_range(m2, n) and q.in_range(when, 4) and q.in_range(drop, 4)):
         return q.SKIP
     if legit:
         return q.SKIP if (m0 != 0 or m1 != 0 or m2 != 0) else _run([CANCEL_KNOWN], drop, when, True)
@@ -102,6 +120,8 @@ def _q14(m0, m1, m2, drop, when, legit):
     if first is not None and m0 != first:
         return q.SKIP
     if q.SHARD.get("nlines", 3) == 2 and (m2 != len(MSGS) or when == 2):
+        return q.SKIP
+    if "whens" in q.SHARD and when not in q.SHARD["whens"]:
         return q.SKIP
     second = q.SHARD.get("m1")
     if second is not None and m1 != second:
@@ -148,6 +168,12 @@ def _run(lines, drop, when, legit):
         if drop == 1:
             ra.feed_eof()
             pool.settle()
+        if drop == 3:
+            ra.reset()
+            try:
+                pool.settle()
+            except Spin:
+                return "after client A's connection was reset its handler spins on readline() without yielding: the pool's event loop is frozen (A sent %s)" % [l for l, d in lines]
         # let everything that was started run to its end
         for _ in range(6):
             for p in pool.live():
@@ -217,9 +243,9 @@ def q14(m0: int, m1: int, m2: int, drop: int, when: int, legit: bool) -> str:
 
 QUERIES = [
     {"name": "Q14", "fn": q14,
-     "shards": {"quick": [{"m0": k, "nlines": 2} for k in (0, 1, 2, 4, 8, 12, 13, 14, 15, len(MSGS) - 1, len(MSGS))],
+     "shards": {"quick": [{"m0": k, "nlines": 2, "whens": [1, 3]} for k in (0, 1, 2, 4, 8, 12, 13, 14, 15, len(MSGS) - 1, len(MSGS))],
                 "thorough": [{"m0": k, "nlines": 2} for k in range(len(MSGS) + 1)] + [{"m0": a, "m1": b, "nlines": 3} for a in (0, 1, 6, 13, 14) for b in (0, 2, 8, 12, 13, 14, 15, 21)]},
      "timeout": {"quick": 900, "thorough": 3000},
-     "bound": "client A sends up to 3 lines, each from a catalogue of %d message shapes (%s) or nothing, then keeps the connection / drops it / its writer breaks; client B's child exits before A's 1st/2nd/3rd line or after; "
+     "bound": "client A sends up to 3 lines, each from a catalogue of %d message shapes (%s) or nothing, then keeps the connection / closes it / its writer breaks / the connection is reset (every later read raises at once); client B's child exits before A's 1st/2nd/3rd line or after (quick: before the 2nd line or after all); "
               "quick: 2 lines, the first from 11 of the shapes, the second any; thorough: 2 lines over all pairs, 3 lines for 24 prefixes" % (len(MSGS), ", ".join(l for l, d in MSGS))},
 ]
